@@ -310,7 +310,7 @@ func init() {
 		}
 	}
 	// two cascades in flight at once (own root monitors, separate adder threads)
-	pairs := [][2]int{{1, 5}, {2, 4}, {0, 6}, {3, 8}}
+	pairs := [][2]int{{1, 5}, {2, 4}, {0, 6}, {3, 8}, {1, 9}, {9, 2}, {9, 9}}
 	for _, pr := range pairs {
 		for _, w := range []int{1, 2} {
 			pr, w := pr, w
